@@ -157,6 +157,23 @@ GEN_TIES = {
         "ties": ["StateTie", "HookTie"],
         "what": "the model's extrusion hook no longer equals extrusion_hook translated from gscrib/hooks/extrusion_hook.py",
     },
+    "writers": {
+        "props": {"C14"},
+        "gen": "gen_writers.py", "gen_file": "GscribModel/Gen/WritersSrc.lean", "tie": "WritersTie", "validate": "harness.tie_writers",
+        "what": "the writers model no longer equals the GCodeCore writer-list methods and the FileWriter class translated from "
+                "gscrib/gcode_core.py and gscrib/writers/file_writer.py",
+    },
+    "tracer": {
+        "props": {"C10", "C11", "C12"},
+        "gen": "gen_tracer.py", "gen_file": "GscribModel/Gen/TracerSrc.lean", "tie": "TracerTie", "validate": "harness.tie_tracer",
+        "what": "the tracer model no longer equals the functions translated from gscrib/geometry/tracer.py, "
+                "gscrib/enums/types/direction.py and gscrib/gcode_core.py",
+    },
+    "format": {
+        "props": {"C08", "C09"},
+        "gen": "gen_format.py", "gen_file": "GscribModel/Gen/FormatSrc.lean", "tie": "FormatTie", "validate": "harness.tie_format",
+        "what": "the formatter model no longer equals DefaultFormatter translated from gscrib/formatters/default_formatter.py",
+    },
     "state": {
         "props": {"C02", "C03", "C05", "C06", "C07"},
         "gen": "gen_state.py", "gen_file": "GscribModel/Gen/StateSrc.lean", "tie": "StateTie", "validate": "harness.tie_state",
